@@ -157,14 +157,19 @@ fn roundtrip(f: RespFrame) {
 #[kani::stub(parse_map, cut_arm)]
 #[kani::stub(parse_set, cut_arm)]
 fn c20_rt_line_types() {
+    // payload lengths 0, 1 and 3 concretely (a symbolic length makes the payload copy a
+    // symbolic-size allocation); bytes symbolic minus CR/LF
     let p: [u8; 3] = kani::any();
-    let n: usize = kani::any();
-    kani::assume(n <= 3);
-    kani::assume(no_crlf(&p[..n]));
-    if kani::any() {
-        roundtrip(RespFrame::SimpleString(Arc::new(p[..n].to_vec())));
+    kani::assume(no_crlf(&p));
+    let err: bool = kani::any();
+    if err {
+        roundtrip(RespFrame::Error(Arc::new(Vec::new())));
+        roundtrip(RespFrame::Error(Arc::new(vec![p[0]])));
+        roundtrip(RespFrame::Error(Arc::new(vec![p[0], p[1], p[2]])));
     } else {
-        roundtrip(RespFrame::Error(Arc::new(p[..n].to_vec())));
+        roundtrip(RespFrame::SimpleString(Arc::new(Vec::new())));
+        roundtrip(RespFrame::SimpleString(Arc::new(vec![p[0]])));
+        roundtrip(RespFrame::SimpleString(Arc::new(vec![p[0], p[1], p[2]])));
     }
 }
 
@@ -440,3 +445,52 @@ fn c05_line_framing_error() {
 fn c05_line_framing_simple() {
     line_framing(false);
 }
+
+// ---------------------------------------------------------------- prefix lemma with a read offset
+// The lemma above starts from position 0.  The parser must look only at buffer[position..]: here
+// two already consumed bytes sit in front of the input (position = 2, no compaction yet).
+fn prefix_lemma_offset<const N: usize>(data: [u8; N], k: usize) {
+    use std::mem::ManuallyDrop;
+    let junk: [u8; 2] = kani::any();
+    let mut b_pre = vec![junk[0], junk[1]];
+    b_pre.extend_from_slice(&data[..k]);
+    let mut b_all = vec![junk[0], junk[1]];
+    b_all.extend_from_slice(&data);
+    let mut p_pre = ManuallyDrop::new(RespParser { buffer: b_pre, position: 2 });
+    let mut p_all = ManuallyDrop::new(RespParser { buffer: b_all, position: 2 });
+    let r_pre = ManuallyDrop::new(p_pre.parse());
+    let r_all = ManuallyDrop::new(p_all.parse());
+    kani::cover!(matches!(&*r_pre, Ok(None)), "prefix incomplete");
+    match (&*r_pre, &*r_all) {
+        (Ok(Some(f)), Ok(Some(g))) => {
+            assert!(leaf_eq(f, g) || matches!((f, g), (RespFrame::Array(Some(_)), RespFrame::Array(Some(_)))),
+                    "(1) same frame from prefix and from whole input (read offset > 0)");
+        }
+        (Ok(Some(_)), _) => assert!(false, "(1) frame from the prefix but not from the whole input (read offset > 0)"),
+        (Err(_), Err(_)) => {}
+        (Err(_), _) => assert!(false, "(2) error on the prefix but not on the whole input (read offset > 0)"),
+        (Ok(None), _) => {}
+    }
+}
+macro_rules! prefix_offset_harness {
+    ($name:ident, $n:expr, $first:expr) => {
+        #[kani::proof]
+        #[kani::unwind(9)]
+        #[kani::stub(alloc::fmt::format, fmt_stub)]
+        #[kani::stub(parse_array, cut_assume)]
+        #[kani::stub(parse_double, cut_assume)]
+        #[kani::stub(parse_map, cut_assume)]
+        #[kani::stub(parse_set, cut_assume)]
+        fn $name() {
+            let mut data: [u8; $n] = kani::any();
+            data[0] = $first;
+            let mut k = 1;
+            while k < $n {
+                prefix_lemma_offset::<$n>(data, k);
+                k += 1;
+            }
+        }
+    };
+}
+prefix_offset_harness!(c20_prefix_off_inline_p, 6, b'P');
+prefix_offset_harness!(c20_prefix_off_simple, 6, b'+');
